@@ -109,10 +109,26 @@ def run_case(case):
         # determinism prefix check (evaluations 1..k identical)
         a = [e["x"].tobytes() for e in dry.run.evals[:k]]
         b = [e["x"].tobytes() for e in rec.run.evals[:k]]
-        if a[:len(b)] != b[:len(a)] or len(b) < min(k, len(a)):
+        if a[:len(b)] != b[:len(a)]:
             return e2e.record(case, [], tags=tags + ["rerun:diverged"],
                               counts=counts, skipped=True)
         viols, info = oracles.o_c09(rec)
+        if rec.exc is not None:
+            viols.append(oracles.V(
+                "exception_at_trigger",
+                f"request placed at evaluation {k} ({r['kind']} step): "
+                f"minimize raised {type(rec.exc).__name__}: "
+                f"{str(rec.exc)[:120]}", k=k, kind=r["kind"],
+                mechanism="exc:" + type(rec.exc).__name__))
+            info["trigger"] = info.get("trigger") or ["exception"]
+            info["trigger_kind"] = r["kind"]
+        elif len(b) < min(k, len(a)) and not info.get("ambiguous") \
+                and not viols:
+            viols.append(oracles.V(
+                "stopped_before_trigger",
+                f"request placed at evaluation {k} but the run ended after "
+                f"{len(b)} evaluations with status "
+                f"{rec.res.status if rec.res is not None else None}", k=k))
         spec = spec2
         chosen_kind = r["kind"]
         if info.get("trigger") is None and not info.get("ambiguous") \
